@@ -6,6 +6,7 @@ import XmppModel.Lemmas.NegotiateAdv
 import XmppModel.Lemmas.NegotiateReach
 import XmppModel.Lemmas.NegotiateTerm
 import XmppModel.Lemmas.NegotiateDriver
+import XmppModel.Lemmas.NegotiateTee
 import XmppModel.Generated.C01
 /-!
 # C01 — features are negotiated only when allowed, in order, at most once
@@ -327,7 +328,7 @@ theorem C01_ready_sound_unique_ns {c : Conf} (h : Reach C O st0 script picks c) 
 def plainO : Oracle :=
   { neg := fun _ _ _ => ⟨0, false, false⟩, list := fun _ _ _ => ⟨false, false⟩,
     parseErr := fun _ _ _ => false, fault := fun _ => false, cancel := fun _ => false,
-    block := fun _ => false, dlRd := true, dlWr := true }
+    block := fun _ => false, dlRd := true, dlWr := true, layer := fun _ _ => false }
 
 def fMand : Feature := ⟨0, ⟨2, 1⟩, 0, 0, true⟩
 def fInfo : Feature := ⟨1, ⟨2, 2⟩, 0, 0, false⟩
@@ -377,6 +378,21 @@ iteration order -/
 theorem C01_voluntary_first_trace {c : Conf} (h : Reach C O st0 script picks c) : VolOK c.tr :=
   (invV_reach h).ok
 
+/-! ### the tee (`StreamConfig.TeeIn` / `TeeOut`) -/
+
+/-- **the tee is transparent**: a session whose configuration carries a tee (`runT true`: every
+negotiator call first wraps a connection that is not yet a `teeConn` and returns it, without I/O
+and without state bits; a restart with a new connection layer makes the next call wrap again)
+reaches every configuration — control point, state, trace, remaining input — that the session
+without a tee reaches; so the trace and the outcome of a run are the same with and without it.
+(Stated for contexts that are not cancelled: with a tee a cancelled context is noticed at the
+extra negotiator call, one failed I/O attempt earlier.) -/
+theorem C01_tee_transparent (C : List Feature) (O : Oracle) (hc : ∀ tr, O.cancel tr = false)
+    (st0 : St) (script : List Peer) (picks : List FName) (n : Nat) :
+    ∃ m, (runT true C O m ⟨init st0 script picks, false⟩).c = run C O n (init st0 script picks) :=
+  let ⟨m, h, _⟩ := tee_simulation C O hc (init st0 script picks) rfl rfl n
+  ⟨m, h⟩
+
 /-! ### negotiation ends -/
 
 /-- **termination**: for every configuration, callback behaviour, fault pattern, peer script
@@ -420,7 +436,8 @@ def demoO : Oracle :=
     cancel := fun _ => false
     block := fun _ => false
     dlRd := true
-    dlWr := true }
+    dlWr := true
+    layer := fun _ _ => false }
 
 def demoScript : List Peer :=
   [.hdr true, .adv [.feat ⟨nsTLS, 1⟩ true, .feat ⟨2, 1⟩ true],
